@@ -3,11 +3,10 @@ from __future__ import annotations
 
 import ast
 
-from ..parloop import prange_loops, is_parallel, classify_writes
 from ..peval import Evaluator, Model, Unsupported, ReturnValue
-from ..poly import Poly, Rat, S, Fn
-from ..source import norm, const_value, walk_no_nested, AnalysisError
-from .common import params, is_name
+from ..poly import Poly
+from ..source import norm
+from .common import params
 
 KERNEL = "plot/utils.py::evaluate_on_grid"
 AXES = ("x", "y", "z")
